@@ -1,7 +1,14 @@
 """Shared by props/c16.py, c17.py, c20.py: rendering of harness dumps (configurations, setups, oracle answers) as Coq terms
 over Q for the executable instance of Model/Config.v, and parsing of the model's one-line report."""
 from fractions import Fraction
-from vlib.common import frac_of_hex, f64_of_hex, is_finite_hex
+from vlib.common import frac_of_hex, f64_of_hex, is_finite_hex, load_findings, match_finding
+
+
+def unknown_failing_input(ctx):
+    """is there a violation with a concrete failing input that is NOT a known finding?  (a known finding firing on the same
+    run must never stand in for the search that a broken obligation / model disagreement requires)"""
+    findings = load_findings()
+    return any(v["found_input"] and not match_finding(v, findings, ctx.prop) for v in ctx.violations)
 
 IMPORTS = ("From Coq Require Import String List Bool ZArith QArith.\n"
            "From SpdVerif Require Import Base.CfgNumOps Spec.ConfigSpec Gen.ConfigTables Model.ConfigTypes Model.Config "
@@ -113,12 +120,20 @@ def spdc_term(s):
 def otable_term(orc):
     def ans(x):
         return "None" if x is None else f"(Some {qh(x)})"
+
+    def args(name):
+        a = (orc.get("args") or {}).get(name)
+        if a is None or any(x is None for x in a):
+            return "None"
+        return "(Some [" + "; ".join(qh(x) for x in a) + "])"
     si = "; ".join(f"({qh(e['wavelength'])}, {qh(e['ext'])}, {ans(e['r'])})" for e in orc.get("snell_inv", []))
     wp = "; ".join(f"({qh(e['wavelength'])}, {e['pol']}, {ans(e['r'])})" for e in orc.get("waist_pos", []))
     dk = orc.get("dkz0")
     return ("{| t_snell_inv := [%s]; t_snell_ext := %s; t_nm_theta := %s; t_dkz0 := %s; t_nm_period := %s; t_idler_theta := %s; "
-            "t_waist_pos := [%s] |}" % (si, ans(orc.get("snell_ext")), ans(orc.get("nm_theta")), qh(dk) if dk is not None else "1",
-                                        ans(orc.get("nm_period")), ans(orc.get("idler_theta")), wp))
+            "t_waist_pos := [%s]; t_snell_ext_args := %s; t_nm_theta_args := %s; t_dkz0_args := %s; t_idler_theta_args := %s |}"
+            % (si, ans(orc.get("snell_ext")), ans(orc.get("nm_theta")), qh(dk) if dk is not None else "1",
+               ans(orc.get("nm_period")), ans(orc.get("idler_theta")), wp,
+               args("snell_ext"), args("nm_theta"), args("dkz0"), args("idler_theta")))
 
 
 def units_term(u):
@@ -149,6 +164,37 @@ SITE_OF_LOC = {
 }
 
 
+_ERRORS = None
+
+
+def error_table():
+    """text of every SPDCError on the configuration path -> the model's Err constructor, as the generator READ it from the source
+    (Gen/ConfigSites.v: error_messages); no message text is written down in the checks"""
+    global _ERRORS
+    if _ERRORS is None:
+        import os
+        import re
+        from vlib.common import COQ
+        src = open(os.path.join(COQ, "Gen", "ConfigSites.v")).read()
+        m = re.search(r"Definition error_messages[^=]*:=\s*\[(.*?)\]\.", src, re.S)
+        _ERRORS = {}
+        if m:
+            for a, c in re.findall(r'\("((?:[^"]|"")*)", "([^"]*)"\)', m.group(1)):
+                _ERRORS[a.replace('""', '"')] = c
+    return _ERRORS
+
+
+def error_class(msg):
+    """err:<class> of an error message (exact text, or the text embedded in a longer message such as an unwrap panic's)"""
+    t = error_table()
+    if msg in t:
+        return t[msg]
+    for a, c in t.items():
+        if a and a in msg:
+            return c
+    return None
+
+
 def real_class(step):
     """class label of a harness step / real outcome in the model's vocabulary (coarse: ok / err:<kind> / panic:<file>)"""
     c = step["class"]
@@ -156,17 +202,9 @@ def real_class(step):
         return "ok"
     if c == "err":
         m = step.get("msg", "")
-        if m.startswith("Must specify one of"):
-            return "err:theta_spec"
-        if m.startswith("Can not autocalc theta") or m.startswith("auto theta with poling"):
+        if m == "auto theta with poling":      # the shadow construction's own label for the rule it replays
             return "err:auto_theta_with_poling"
-        if m.startswith("Signal wavelength must be greater"):
-            return "err:signal_le_pump"
-        if m.startswith("Could not determine poling period"):
-            return "err:impossible_period"
-        if m.startswith("Poling period must"):
-            return "err:bad_period"
-        return "err:?" + m[:40]
+        return error_class(m) or ("err:?" + m[:40])
     return "panic@" + step.get("loc", "?").rsplit(":", 1)[0]
 
 
